@@ -189,6 +189,14 @@ func engineSearchInv(ctx *Ctx) {
 			}
 			for oi := 0; oi < nOpt; oi++ {
 				o := vlib.RandomOptions(r, len(cmds), words)
+				if toks := vlib.Tokenize(q); len(toks) > 1 && r.Intn(8) == 0 {
+					// a tiny or subnormal factor on words of the query itself (the first ones are met first while scoring)
+					o.ContextBoosts = map[string]float64{toks[0]: []float64{5e-324, 1e-320, 1e-310, 1e-300}[r.Intn(4)]}
+					if r.Intn(2) == 0 {
+						o.ContextBoosts[toks[1]] = 5e-324
+					}
+					ctx.R.Path("requests-with-a-subnormal-boost-on-a-query-word", 1)
+				}
 				cs := c01Case{DB: dbName, N: len(cmds), Query: q, Opts: vlib.OptsJ(o)}
 				ctx.R.Begin(cs)
 				ctx.R.Eval(1)
@@ -281,6 +289,24 @@ func engineSearchInv(ctx *Ctx) {
 							checkList(ctx, "C01", csl, cmds, lim, cdb.SearchWithOptionsAndCache(q, ol))
 							checkList(ctx, "C01", csl, cmds, lim, cdb.SearchWithCache(q, lim))
 							ctx.R.Path("cached-limit-sequence-steps", 1)
+						}
+					})
+				}
+				if oi == 2 && qi%4 == 1 {
+					// pairs of different requests in which a text field of one spells out the options of the other (the larger
+					// limit first): the second answer is bounded by its own limit
+					cs.Entry = "SearchWithOptionsAndCache/look-alike-pair"
+					ctx.R.Guard("C01", cs.Entry, cs, func() {
+						big, small := o, o
+						big.Limit, small.Limit = len(cmds)+1, 1+r.Intn(2)
+						big.AllPlatforms, small.AllPlatforms = true, true
+						for _, pr := range vlib.SmuggledPairs(q, big, small) {
+							for _, rq := range pr {
+								csl := cs
+								csl.Query, csl.Opts = rq.Q, vlib.OptsJ(rq.O)
+								checkList(ctx, "C01", csl, cmds, rq.O.Limit, cdb.SearchWithOptionsAndCache(rq.Q, rq.O))
+								ctx.R.Path("cached-look-alike-pair-steps", 1)
+							}
 						}
 					})
 				}
